@@ -305,6 +305,7 @@ func (w *world) dryFunc(cs Case, f *fn) {
 	c.Res.Traces++
 	c.Res.States++
 	slot := int(f.next - f.entry)
+	note(c, cs, "dry-func")
 	size, serr := g14.GetFuncSize(f.entry)
 	var err error
 	msg, panicked := vk.Try(func() { _, err = g14.Ptr(f.entry, c14corpus.Repl(1, 0)) })
@@ -600,6 +601,10 @@ func (w *world) live(cs Case, t *c14corpus.Target, ph *c14corpus.Target, sq *seq
 		} else if jump && len(within(d, allowed[0])) > 0 {
 			changed = true
 		}
+		if phFn != nil && op == "tramp" && len(within(d, vk.Range{Lo: phFn.entry, Hi: phFn.next})) > 0 {
+			n, _ := c.Res.Extra["n_live_placeholder_written"].(int)
+			c.Res.Extra["n_live_placeholder_written"] = n + 1
+		}
 		if p := w.permProblem(); p != "" {
 			w.violate(keyp+" op="+op+" class=permissions-changed", fmt.Sprintf("%s: afterwards %s", where, p), cs)
 			w.forceCleanPermsOnly()
@@ -855,9 +860,18 @@ func (w *world) runXpage(replay *Case) {
 	}
 	var idx int64
 	rep := c.Replay != ""
-	for bi, b := range bounds {
-		for off := -lim; off <= lim; off++ {
-			for n := 0; n <= maxLen; n++ {
+	// simplest first: short writes before long ones, starts close to the boundary before distant ones
+	var offs []int
+	for a := 0; a <= lim; a++ {
+		if a == 0 {
+			offs = append(offs, 0)
+		} else {
+			offs = append(offs, -a, a)
+		}
+	}
+	for n := 0; n <= maxLen; n++ {
+		for _, off := range offs {
+			for bi, b := range bounds {
 				for p := 0; p < npat; p++ {
 					my := idx
 					idx++
@@ -870,7 +884,7 @@ func (w *world) runXpage(replay *Case) {
 						continue
 					}
 					w.xpage(cs, b)
-					if (off == -lim || off == lim) && n == maxLen && p == 0 {
+					if (off == -lim || off == lim) && (n == maxLen || n == 1) && p == 0 && bi == 0 {
 						c.Sample(cs)
 					}
 				}
